@@ -27,7 +27,7 @@ MUTABLE_CTORS = {'Py_Vec', 'Vec', 'Py_Angle', 'Angle', 'Py_Matrix', 'Matrix'}
 FROZEN_CTORS = {'Py_FrozenVec', 'FrozenVec', 'Py_FrozenAngle', 'FrozenAngle', 'Py_FrozenMatrix', 'FrozenMatrix'}
 FRESH_CLASSMETHODS = {'from_angle', 'from_basis', 'from_pitch', 'from_yaw', 'from_roll', 'axis_angle', 'from_angstr',
                       '_from_raw', 'from_str', 'with_axes'}
-FRESH_METHODS = {'to_angle', 'thaw', 'freeze', 'transpose', 'inverse', 'norm', 'cross', 'forward', 'left', 'up'}
+FRESH_METHODS = {'to_angle', 'thaw', 'freeze', 'transpose', 'inverse', 'norm', 'cross', 'forward', 'left', 'up', '_new_copy'}
 # methods that write their receiver / their first argument (the call is then a mutation event in the caller)
 MUT_RECV = {'_mat_mul', '__iadd__', '__isub__', '__imul__', '__itruediv__', '__ifloordiv__', '__imod__', '__imatmul__',
             'min', 'max', 'localise', 'rotate', 'rotate_by_str', '__setitem__'}
